@@ -18,6 +18,8 @@ def main():
     full = pd.read_csv("data/no_food_trade/computer_readable_combined.csv")
     sub = full[full["iso3"].isin(list(POP))].copy()
     sub["population"] = [POP[c] for c in sub["iso3"]]
+    # (a country may have no cropland at all - Singapore has none - and is a country like any other for the aggregate)
+    sub.loc[sub["iso3"] == "DJI", "crop_area_1000ha"] = 0.0
     names = {r["iso3"]: r["country"] for _, r in sub.iterrows()}
     real_read = pd.read_csv
 
@@ -43,11 +45,18 @@ def main():
         rep["cases"] += 1
         ratio = {k: v[0] / v[1] for k, v in c["ratio"].items()}
         called = []
+        # every seventh case one selected country's optimisation fails (the runner reports NaN for it): it then counts neither in
+        # the people considered nor in the people fed, and has no entry in the results (Aggregate over Selected minus Failed)
+        failing = None
+        if rep["cases"] % 7 == 0 and len(c["selected"]) >= 2:
+            failing = sorted(c["selected"])[rep["cases"] % len(c["selected"])]
 
         def stub(self, country_data, scenario_option, create_pptx_with_all_countries, show_country_figures, save_all_results,
                  figure_save_postfix="", title="Untitled"):
             cc = country_data["iso3"]
             called.append(cc)
+            if cc == failing:
+                return (float("nan"), "stub", SimpleNamespace(percent_people_fed=float("nan"), iso3=cc))
             return (ratio[cc], "stub", SimpleNamespace(percent_people_fed=ratio[cc] * 100, iso3=cc))
 
         m.ScenarioRunnerNoTrade.run_optimizer_for_country = stub
@@ -68,18 +77,22 @@ def main():
             bad("Aggregate:exception:%s" % form, dict(case=c, exc=repr(ex)[:160]))
             continue
         want_sel = sorted(c["selected"])
+        ran_ok = [x for x in want_sel if x != failing]
         if sorted(called) != want_sel:
             bad("SelectionExact:%s" % form, dict(case=c, ran=sorted(called), want=want_sel))
             continue
-        if sorted(results.keys()) != sorted(names[x] for x in want_sel) or len(called) != len(set(called)):
+        if sorted(results.keys()) != sorted(names[x] for x in ran_ok) or len(called) != len(set(called)):
             bad("EachOnce:%s" % form, dict(case=c, keys=sorted(results.keys())))
         want_tot = c["tot"] * 1e6
         want_fed = c["fed2"] / 400 * 1e6
+        if failing is not None:
+            want_tot = sum(POP[x] for x in ran_ok)
+            want_fed = sum(POP[x] * min(1.0, ratio[x]) for x in ran_ok)
         if popov is not None:
             # the documented numeric override of a table column applies to every country of the run: each is simulated with, and
             # therefore weighs, the overridden population
-            want_tot = popov * len(want_sel)
-            want_fed = sum(popov * min(1.0, ratio[x]) for x in want_sel)
+            want_tot = popov * len(ran_ok)
+            want_fed = sum(popov * min(1.0, ratio[x]) for x in ran_ok)
         if abs(net_pop - want_tot) > 1e-6 * max(1, want_tot) or abs(net_pop_fed - want_fed) > 1e-6 * max(1, want_fed):
             bad("AggregateIsCappedMean:%s" % form, dict(case=c, got=[float(net_pop), float(net_pop_fed)], want=[want_tot, want_fed]))
         if not (0 <= net_pop_fed <= net_pop * (1 + 1e-12)):
@@ -88,7 +101,7 @@ def main():
         # the other aggregation of the code base: Interpreter.sum_many_results_together adds the countries' food series (converted
         # with each country's own population) and re-expresses the total for the summed population; for the same selection and
         # fractions it must give the population-weighted mean (capped at 100 % per country when asked to)
-        if len(want_sel) >= 1 and rep["cases"] % 4 == 0:
+        if len(want_sel) >= 1 and rep["cases"] % 4 == 0 and failing is None:
             try:
                 sum_many_case(c, want_sel, ratio, bad, form)
                 rep["sum_many"] = rep.get("sum_many", 0) + 1
